@@ -43,6 +43,8 @@ pub struct Gen {
     pub no_fill: bool,
     /// percentage of operations that get a random callback panic attached (C03: exits under unwinding)
     pub fault_pct: u64,
+    /// WithCapacity may ask for a table of 131 072 buckets
+    pub big_tables: bool,
     /// slot 0 hashes with a `Bands` plan: the bands recipe is then the macro of choice
     pub bands_plan: bool,
     /// C13 churn mode: (bound on live size, removal order 0 random / 1 FIFO / 2 LIFO / 3 middle)
@@ -530,7 +532,8 @@ impl Gen {
                 Op::new(kind).s(s).a(kid as i64).b(val).c(c).v(chain)
             }
             Kd::GetMany | Kd::GetManyKv | Kd::TGetMany => {
-                let n = rng.below(5);
+                // N = 0..4 as the property quantifies, now and then 5 or 6
+                let n = if rng.below(8) == 0 { 5 + rng.below(2) } else { rng.below(5) };
                 let mut v: Vec<i64> = (0..n).map(|_| self.key(rng, sv, 70) as i64).collect();
                 if n >= 2 && rng.below(4) == 0 {
                     // a repeated key at any two positions (also behind an absent key)
@@ -544,7 +547,8 @@ impl Gen {
                 Op::new(kind).s(s).b(val).c(rng.below(4) as i64).v(v)
             }
             Kd::New | Kd::DropSlot => Op::new(kind).s(s),
-            Kd::WithCapacity => Op::new(kind).s(s).a(*rng.pick(&[0i64, 0, 1, 3, 4, 7, 8, 14, 15, 28, 29, 56, 57, 100])),
+            // (rarely a table of 131 072 buckets: code paths that depend on how much of the table is still ahead)
+            Kd::WithCapacity => Op::new(kind).s(s).a(if self.big_tables && rng.below(40) == 0 { 100_000 } else { *rng.pick(&[0i64, 0, 1, 3, 4, 7, 8, 14, 15, 28, 29, 56, 57, 100]) }),
             Kd::FillNoAlloc => Op::new(kind).s(s).a(rng.below(self.universe as u64) as i64),
             // ---- table operations
             Kd::TFind | Kd::TFindMut | Kd::TIterHash | Kd::TIterHashMut => Op::new(kind).s(s).a(self.key(rng, sv, 65) as i64).b(val).c(rng.below(8) as i64),
